@@ -141,7 +141,7 @@ func (fs FilterSpec) Build() filter.Filter {
 // library's own Accept on a freshly built object: the pure filter semantics are
 // properties C17-C19, which simulation does not re-judge.
 func (fs FilterSpec) Pred() func(Spec) bool {
-	f := fs.Build()
+	f := fs.noSlow().Build()
 	return func(s Spec) bool { return f.Accept(BuildMeta("pod", s)) }
 }
 
@@ -151,6 +151,23 @@ func FilterSpecs(specs []Spec, pred func(Spec) bool) []Spec {
 		if pred(s) {
 			out = append(out, s)
 		}
+	}
+	return out
+}
+
+// noSlow: the same term with the cost of "slow" terms removed (they accept
+// everything): what the reference predicate evaluates.
+func (fs FilterSpec) noSlow() FilterSpec {
+	if fs.Op == "slow" {
+		return FilterSpec{}
+	}
+	if len(fs.Sub) == 0 {
+		return fs
+	}
+	out := fs
+	out.Sub = make([]FilterSpec, len(fs.Sub))
+	for i, c := range fs.Sub {
+		out.Sub[i] = c.noSlow()
 	}
 	return out
 }
